@@ -6,6 +6,7 @@ import (
 	"go/token"
 	"go/types"
 	"math"
+	"math/big"
 	"strings"
 
 	"golang.org/x/tools/go/ssa"
@@ -345,5 +346,138 @@ func init() {
 			out = append(out, s.B...)
 		}
 		return StringV{B: out}
+	})
+}
+
+// ---- fmt.Fprintf into a *strings.Builder where formatting IS the subject (inspect output):
+// literal text, %%, %s and %x/%X with an explicit zero-padded width on symbolic integers.
+func fmtSymbolic(ex *Exec, format string, elems []Value) ([]*Term, bool) {
+	var out []*Term
+	k := 0
+	for i := 0; i < len(format); i++ {
+		c := format[i]
+		if c != '%' {
+			out = append(out, ex.byteConst(c))
+			continue
+		}
+		i++
+		if i >= len(format) {
+			return nil, false
+		}
+		if format[i] == '%' {
+			out = append(out, ex.byteConst('%'))
+			continue
+		}
+		width := 0
+		zero := false
+		if format[i] == '0' {
+			zero = true
+			i++
+		}
+		for i < len(format) && format[i] >= '0' && format[i] <= '9' {
+			width = width*10 + int(format[i]-'0')
+			i++
+		}
+		if i >= len(format) || k >= len(elems) {
+			return nil, false
+		}
+		verb := format[i]
+		iv, ok := elems[k].(IfaceV)
+		k++
+		if !ok {
+			return nil, false
+		}
+		switch verb {
+		case 's':
+			s, ok := iv.V.(StringV)
+			if !ok || width != 0 {
+				return nil, false
+			}
+			out = append(out, s.B...)
+		case 'x', 'X':
+			v, ok := iv.V.(*Term)
+			if !ok || v.Sort.K != SBV || !zero || width == 0 || width > 16 {
+				return nil, false
+			}
+			w := v.Sort.W
+			// exactly `width` digits when the value is non-negative and below 16^width
+			if 4*width < w {
+				limit := ex.ts.BVBig(w, new(big.Int).Lsh(big.NewInt(1), uint(4*width)))
+				fits := ex.ts.BVCmp("bvult", v, limit)
+				if !fits.IsTrue() && (ex.sol == nil || ex.sol.Check(ex.ts.Not(fits)) != "unsat") {
+					return nil, false
+				}
+			}
+			for d := width - 1; d >= 0; d-- {
+				var nib *Term
+				if 4*d+3 < w {
+					nib = ex.ts.Extract(4*d+3, 4*d, v)
+				} else if 4*d < w {
+					nib = ex.ts.ZeroExt(ex.ts.Extract(w-1, 4*d, v), 4)
+				} else {
+					nib = ex.ts.BVConst(4, 0)
+				}
+				n8 := ex.ts.ZeroExt(nib, 8)
+				letter := byte('a')
+				if verb == 'X' {
+					letter = 'A'
+				}
+				digit := ex.ts.Ite(ex.ts.BVCmp("bvult", n8, ex.ts.BVConst(8, 10)),
+					ex.ts.BVBin("bvadd", n8, ex.ts.BVConst(8, '0')),
+					ex.ts.BVBin("bvadd", n8, ex.ts.BVConst(8, uint64(letter)-10)))
+				out = append(out, digit)
+			}
+		default:
+			return nil, false
+		}
+	}
+	if k != len(elems) {
+		return nil, false
+	}
+	return out, true
+}
+
+func init() {
+	registerIntrinsic("fmt.Fprintf", func(ex *Exec, fr *Frame, fn *ssa.Function, a []Value, site ssa.Instruction) Value {
+		noop := TupleV{ex.goInt(0), IfaceV{}}
+		if ex.intMode {
+			return noop
+		}
+		w, ok := a[0].(IfaceV)
+		if !ok {
+			return noop
+		}
+		bp, ok := w.V.(Pointer)
+		if !ok || bp.Obj == nil || !strings.HasSuffix(typeString(w.T), "strings.Builder") {
+			return noop // other writers (stdout, buffers of messages): formatting is not the subject
+		}
+		fs, ok := a[1].(StringV)
+		if !ok {
+			ex.unsupported("fmt.Fprintf into a strings.Builder with a non-string format")
+		}
+		format, ok := concreteString(fs)
+		if !ok {
+			ex.unsupported("fmt.Fprintf into a strings.Builder with a symbolic format")
+		}
+		bytes, ok := fmtSymbolic(ex, format, ex.sliceElems(a[2].(SliceV)))
+		if !ok {
+			ex.unsupported("fmt.Fprintf(%q) into a strings.Builder: verb/operand outside the exact model", format)
+		}
+		// append through the real (*strings.Builder).WriteString
+		var ws *ssa.Function
+		if p, ok := w.T.(*types.Pointer); ok {
+			if named, ok := p.Elem().(*types.Named); ok {
+				for i := 0; i < named.NumMethods(); i++ {
+					if m := named.Method(i); m.Name() == "WriteString" {
+						ws = ex.P.Prog.FuncValue(m)
+					}
+				}
+			}
+		}
+		if ws == nil {
+			ex.unsupported("strings.Builder.WriteString not found")
+		}
+		ex.callFunction(fr, ws, []Value{bp, StringV{B: bytes}}, nil, site)
+		return TupleV{ex.goInt(int64(len(bytes))), IfaceV{}}
 	})
 }
